@@ -49,8 +49,15 @@ pub struct Property {
 
 impl Property {
     pub fn table(&self) -> Vec<usize> {
+        // developer aid (timing one scenario): SIMIO_ONLY=<scenario name>; never set by the checks
+        let only = std::env::var("SIMIO_ONLY").ok();
         let mut t = Vec::new();
         for (i, s) in self.scenarios.iter().enumerate() {
+            if let Some(o) = &only {
+                if s.name != o {
+                    continue;
+                }
+            }
             for _ in 0..s.weight {
                 t.push(i);
             }
